@@ -201,37 +201,36 @@ impl KademliaRoutingTable {
     }
 
     fn find_closest_nodes(&self, key: &DhtKey, count: usize) -> Vec<NodeInfo> {
-        // Optimization: Start from the bucket closest to the key and work outwards
-        // This avoids collecting all nodes from all 256 buckets when we only need a few
+        if count == 0 {
+            return Vec::new();
+        }
+
+        // Visit buckets in order of XOR distance to the key. Let b be the bucket the
+        // key itself falls into (first bit where it differs from the local id):
+        //  - entries of bucket b agree with the key on bit b: they are the closest;
+        //  - entries of every bucket above b share the local id's bit b, so they all
+        //    lie in the next distance band (they must be taken together and sorted);
+        //  - entries of bucket b-1, b-2, ..., 0 differ from the key at an ever
+        //    earlier bit: each of these buckets is strictly farther than the last.
+        // Collection may stop only at one of these band boundaries.
         let target_bucket = self.get_bucket_index_for_key(key);
-
-        let mut candidates: Vec<(NodeInfo, [u8; 32])> = Vec::with_capacity(count * 2);
-
-        // Collect from target bucket first, then expand outwards
-        for offset in 0..256 {
-            // Check bucket above target (or at target when offset == 0)
-            let bucket_above = target_bucket.saturating_add(offset).min(255);
-            for node in self.buckets[bucket_above].get_nodes() {
+        let mut candidates: Vec<(NodeInfo, [u8; 32])> =
+            Vec::with_capacity(count.saturating_mul(CANDIDATE_EXPANSION_FACTOR).min(2048));
+        let collect = |bucket: &KBucket, candidates: &mut Vec<(NodeInfo, [u8; 32])>| {
+            for node in bucket.get_nodes() {
                 let distance = node.id.0.distance(key);
                 candidates.push((node.clone(), distance));
             }
+        };
 
-            // Check bucket below target (skip when offset == 0 to avoid duplicate)
-            if offset > 0 {
-                let bucket_below = target_bucket.saturating_sub(offset);
-                // Only check if it's a different bucket (saturating_sub may equal target_bucket)
-                if bucket_below != bucket_above {
-                    for node in self.buckets[bucket_below].get_nodes() {
-                        let distance = node.id.0.distance(key);
-                        candidates.push((node.clone(), distance));
-                    }
-                }
-            }
-
-            // Early exit: if we have enough candidates, we can stop expanding
-            if candidates.len() >= count * CANDIDATE_EXPANSION_FACTOR {
-                break;
-            }
+        collect(&self.buckets[target_bucket], &mut candidates);
+        for bucket in &self.buckets[target_bucket + 1..] {
+            collect(bucket, &mut candidates);
+        }
+        let mut below = target_bucket;
+        while candidates.len() < count && below > 0 {
+            below -= 1;
+            collect(&self.buckets[below], &mut candidates);
         }
 
         // Sort by distance
